@@ -168,6 +168,8 @@ def oracle(case, trace_arg, names_idx, repeat, entry, rep, reset=False):
 def variants(rng, case):
     nE = case['nE']
     names = sc.names_of(case)
+    if case.get('trace_all'):
+        return True, list(range(nE))
     if case.get('mix') in ('alias', 'all') and rng.random() < 0.6:
         # the traced variables may just as well be named through their aliases
         names = [rng.choice(['AL_', 'AL2_', '']) + nm for nm in names]
@@ -199,7 +201,17 @@ def _work(ctx, rep):
         c['xtra'] = rng.random() < 0.5
     cases += dcs
     cases += [scale_case(rng, False) for _ in range((4 if ctx.tier == 'quick' else 60) * ctx.scale // ctx.parts)]
-    cases += [scale_case(rng, True) for _ in range((2 if ctx.tier == 'quick' else 24) * ctx.scale // ctx.parts)]   # traces > 512 snapshots
+    cases += [scale_case(rng, True) for _ in range((2 if ctx.tier == 'quick' else 24) * ctx.scale // ctx.parts)]
+    # a trace of well over 512 snapshots of several variables (slow convergence: hundreds of passes in one period)
+    for _ in range((2 if ctx.tier == 'quick' else 40) * ctx.scale // ctx.parts):
+        K = rng.choice([520, 700, 1100])
+        nE = rng.choice([2, 3, 5])
+        c = base_case(3, nE, list(range(nE)), rng.choice([0, 1, -1]), mkopts(0, K + rng.choice([1, 5]), 0, 'ignore', 'raise', True),
+                      {}, vals=[[float(i + p) for p in range(3)] for i in range(nE)])
+        pos = c['t'] + 3 if c['t'] < 0 else c['t']
+        c['script'][pos] = sc.make_script(['far'] * K + ['same'], [c_ for c_ in [float(i + pos) for i in range(nE)]], nE)
+        c['trace_all'] = True
+        cases.append(sc.vary_implementation_side(c, rng))
     lines, expect = [], []
     for case in cases:
         if case['opts']['min_iter'] > case['opts']['max_iter'] and rng.random() < 0.8:
